@@ -4,7 +4,8 @@
    decoders return [Ok] for ARBITRARY input, callback chunking and code tables.
    Statements only; proofs are in P_Tree.v, P_Decoder.v (and P_Null / P_Lz5 /
    P_Lzs / P_BitReader as they are completed). *)
-From Lhasa Require Import Base ListN DecBase BitReader Tree Decoder P_Tree P_Decoder.
+From Lhasa Require Import Base ListN DecBase BitReader Tree Null Lzs Lz5 Generated Decoder
+  P_Tree P_Decoder P_DecoderInv P_Null P_Lz5 P_BitReader P_Lzs.
 Local Open Scope N_scope.
 
 (* --- lib/tree_decode.c, shared by the lh4-7/x, lk7 and pm2 decoders --- *)
@@ -63,7 +64,61 @@ Proof.
   destruct (read_spec dread mr bs Hd d n Hn) as (k & o & d1 & ev & d2 & _ & R & _). eauto.
 Qed.
 
+(* --- lib/bit_stream_reader.c: for ANY callback that returns at most what it is
+   asked for, reading up to 32 bits never indexes outside the 4-byte local buffer,
+   terminates, and keeps the reader well formed --- *)
+Theorem read_bits_safe : forall cbs (cb : callback cbs), cb_bounded cb ->
+  forall r c n, bsr_wf r -> n <= 32 ->
+  exists res r' c', read_bits cb r c n = Ok (res, r', c') /\ bsr_wf r' /\ (forall v, res = Some v -> v < 2 ^ n).
+Proof. intros cbs cb Hcb r c n. exact (P_BitReader.read_bits_safe cb Hcb r c n). Qed.
+
+(* read_from_tree with the bit reader's lemma discharged *)
+Theorem read_from_tree_never_faults : forall leaf w, leaf = 2 ^ w ->
+  forall cbs (cb : callback cbs) t len r c, cb_bounded cb -> bsr_wf r -> closed leaf t len -> 1 <= len -> len < 2 ^ 20 ->
+  exists res r' c', read_from_tree leaf cb t r c = Ok (res, r', c') /\ bsr_wf r' /\ (forall v, res = Some v -> v < leaf).
+Proof.
+  intros leaf w Hl cbs cb t len r c Hcb Hwf Hc H1 H2.
+  refine (P_Tree.read_from_tree_safe leaf w Hl cb bsr_wf _ t len r c Hcb Hwf Hc H1 H2).
+  intros Hcb' r0 c0 Hwf0. destruct (P_BitReader.read_bit_safe cb Hcb' r0 c0 Hwf0) as (res & r' & c' & E & W & V).
+  exists res, r', c'. split; [exact E|]. split; [exact W|]. intros v Ev. specialize (V v Ev). lia.
+Qed.
+
+(* --- whole decoders: for ANY input bytes and ANY callback chunking, one read()
+   returns normally with at most max_read bytes and keeps the decoder's invariant
+   (ring length = its C extent, write position inside the ring, reader well formed) --- *)
+Theorem null_never_faults : forall cbs (cb : callback cbs), cb_bounded cb -> dread_total (null_read cb) null_max_read.
+Proof. exact P_Null.null_read_total. Qed.
+
+Theorem lz5_never_faults : forall cbs (cb : callback cbs) junk, cb_bounded cb -> junk < 256 ->
+  forall s c, lz5_inv s ->
+  exists ch s' c', lz5_read cb junk s c = Ok (ch, s', c') /\ nlen ch <= lz5_max_read /\ lz5_inv s'.
+Proof. exact P_Lz5.lz5_read_total. Qed.
+
+Theorem lzs_never_faults : forall cbs (cb : callback cbs), cb_bounded cb -> forall s c, lzs_inv s ->
+  exists ch s' c', lzs_read cb s c = Ok (ch, s', c') /\ nlen ch <= lzs_max_read /\ lzs_inv s'.
+Proof. exact P_Lzs.lzs_read_total. Qed.
+
+Theorem lz5_init_inv : exists s, lz5_init = Ok s /\ lz5_inv s.
+Proof. exact P_Lz5.lz5_init_ok. Qed.
+Theorem lzs_init_inv : exists s0, lzs_init = Ok s0 /\ lzs_inv s0.
+Proof. exact P_Lzs.lzs_init_ok. Qed.
+
+(* ... and through the API: any read on a decoder whose inner decoder keeps an
+   invariant returns normally, with at most the bytes asked for *)
+Theorem api_read_total_inv : forall (cbs st : Type) (dread : st -> cbs -> outcome (list N * st * cbs))
+  (max_read block_size : N) (I : st -> Prop),
+  (forall s c, I s -> exists ch s' c', dread s c = Ok (ch, s', c') /\ nlen ch <= max_read /\ I s') ->
+  forall (d : decoder) n, I (d_inner d) -> n < 2 ^ 62 ->
+  exists o ev d', lha_decoder_read dread max_read block_size d n = Ok (o, ev, d') /\ I (d_inner d').
+Proof. intros cbs st dread mr bs I H. exact (read_total_inv dread mr bs I H). Qed.
+
 Print Assumptions build_tree_safe_u16.
+Print Assumptions read_bits_safe.
+Print Assumptions read_from_tree_never_faults.
+Print Assumptions null_never_faults.
+Print Assumptions lz5_never_faults.
+Print Assumptions lzs_never_faults.
+Print Assumptions api_read_total_inv.
 Print Assumptions build_tree_safe_u8.
 Print Assumptions init_tree_safe.
 Print Assumptions read_from_tree_safe.
